@@ -382,6 +382,11 @@ func (t *Tree) GetJSON(path string, dest any) bool {
 func (t *Tree) Snapshot(prefixes ...string) map[string]string {
 	t.W.Mu.Lock()
 	defer t.W.Mu.Unlock()
+	return t.SnapshotNoLock(prefixes...)
+}
+
+// SnapshotNoLock: for hooks that run with the world's lock held.
+func (t *Tree) SnapshotNoLock(prefixes ...string) map[string]string {
 	out := map[string]string{}
 	for k, v := range t.Data {
 		if len(prefixes) == 0 {
